@@ -531,14 +531,14 @@ def run(chk: Check):
     chk.assumptions += ["a waiter whose coroutine was cancelled but whose timeout has not elapsed may or may not still withhold a message (left open)",
                         "asyncio time is virtual (loop.time overridden); one model clock unit = 5 s"]
     from . import growth_taskscheduler, growth_commandparser, growth_addonreload
-    growth_addonreload.section(chk, 2 if chk.tier == "quick" else 3, 7 if chk.tier == "quick" else 9)
-    growth_commandparser.section(chk, 5 if chk.tier == "quick" else 6, 2 if chk.tier == "quick" else 3)
+    common.growth(chk, "AddonReload", growth_addonreload.section, 2 if chk.tier == "quick" else 3, 7 if chk.tier == "quick" else 9)
+    common.growth(chk, "CommandParser", growth_commandparser.section, 5 if chk.tier == "quick" else 6, 2 if chk.tier == "quick" else 3)
     if chk.tier == "quick":
         _waiters(chk, 2, 6, "n2-d6")
-        growth_taskscheduler.section(chk, 2, 4, max_pairs=3000)
+        common.growth(chk, "TaskScheduler", growth_taskscheduler.section, 2, 4, max_pairs=3000)
     else:
         _waiters(chk, 2, 8, "n2-d8")
         _waiters(chk, 3, 7, "n3-d7")
-        growth_taskscheduler.section(chk, 2, 5, max_pairs=40000)
+        common.growth(chk, "TaskScheduler", growth_taskscheduler.section, 2, 5, max_pairs=40000)
     chk.cov["rule"] += ("; task scheduler: every edge of the bounded TaskScheduler model (schedule with any scope, finish, session closed, "
                         "main region changed, addon module unloaded, shutdown) replayed through BaseAddon._schedule_task and the AddonManager call sites")
